@@ -1164,6 +1164,15 @@ class Interp:
                             raise
                         cx.notes.append("inlined %s.%s at a call site (its contract has no summary)" % (fv.cls, fv.name))
                         return self.inline_call(fv.node, fv.cls, [fv.self_ref] + list(args), kwargs, st, k, {})
+                if fv.node is not None and not cx.is_target(fv.cls, fv.name) and getattr(cx, "inline_depth", 0) < 4:
+                    # a helper method without a contract of its own (extracted by a refactoring, say) is executed from its
+                    # real AST at the call site -- still the real code, not modular; recorded in the unit's notes
+                    cx.notes.append("inlined helper %s.%s (no contract)" % (fv.cls, fv.name))
+                    cx.inline_depth = getattr(cx, "inline_depth", 0) + 1
+                    try:
+                        return self.inline_call(fv.node, fv.cls, [fv.self_ref] + list(args), kwargs, st, k, {})
+                    finally:
+                        cx.inline_depth -= 1
                 raise Unsupported("call of %s.%s: no contract and not inlinable" % (fv.cls, fv.name))
             if fv.kind == "lambda":
                 return self.inline_call(fv.node, fv.cls, list(args), kwargs, st, k, fv.env)
